@@ -171,22 +171,33 @@ func serveWS(w http.ResponseWriter, r *http.Request, config *Config) (int, error
 		return http.StatusInternalServerError, err
 	}
 
+	// Wait for the process itself, not only for the end of its stdout: a process
+	// that ignores the interrupt may have closed stdout (or pumpStdout may have
+	// given up) long before it exits. Wait must not be called before pumpStdout
+	// has finished reading from the pipe.
+	waited := make(chan error, 1)
+	go func() {
+		<-done
+		waited <- cmd.Wait()
+	}()
+
+	var werr error
 	select {
-	case <-done:
+	case werr = <-waited:
 	case <-time.After(time.Second):
 		// terminate with extreme prejudice.
-		if err := cmd.Process.Signal(os.Kill); err != nil {
-			return http.StatusInternalServerError, err
+		if kerr := cmd.Process.Signal(os.Kill); kerr != nil && kerr != os.ErrProcessDone {
+			return http.StatusInternalServerError, kerr
 		}
-		<-done
+		werr = <-waited
 	}
 
 	// not sure what we want to do here.
 	// status for an "exited" process is greater
 	// than 0, but isn't really an error per se.
 	// just going to ignore it for now.
-	if err := cmd.Wait(); err != nil {
-		log.Println("[ERROR] failed to release resources: ", err)
+	if werr != nil {
+		log.Println("[ERROR] failed to release resources: ", werr)
 	}
 
 	return 0, nil
